@@ -136,7 +136,7 @@ def jobs_lay(prop, table):
     def f(tier, seed):
         big = ["--big"] if tier == T else []
         js = [lay(table, prop, fl, table, big) for fl in ("dbg", "rel", "asan")]
-        js.append(miri(table + "-sample", "layoutmon", ["--prop", prop, "--table", table, "--shardmult", 4 if tier == Q else 1]))
+        js.append(miri(table + "-sample", "layoutmon", ["--prop", prop, "--table", table, "--shardmult", (8 if table == "layouts" else 4) if tier == Q else 1]))
         return js
 
     return f
